@@ -1,21 +1,22 @@
 #!/bin/bash
 # maintenance: run checks against a seeded change WITHOUT touching /repo and WITHOUT overwriting /verif/evidence:
-# the change is applied in the scratch worktree /tmp/sc/mut (reset to /repo's HEAD first), vf is built against that
-# worktree (-modfile), the overlay generators of C05/C06 read it too (VF_REPO), and evidence/replays go to /tmp/sc/out.
-#   usage: muttest.sh <patch.diff> <ID>...
-cd /verif && . ./env.sh
+# the change is applied in a scratch worktree (MUT_DIR, default /tmp/sc/mut; reset to /repo's HEAD first), vf is built
+# against that worktree (-modfile), the overlay generators of C05/C06 read it too (VF_REPO), and evidence/replays go to
+# $MUT_DIR.out.   usage: muttest.sh <patch.diff> <ID>...
+cd "$(dirname "$0")" && . ./env.sh
 patch="$1"; shift
-mkdir -p /tmp/sc/out
-[ -d /tmp/sc/mut ] || git -C /repo worktree add -q --detach /tmp/sc/mut HEAD
-git -C /tmp/sc/mut checkout -q --detach "$(git -C /repo rev-parse HEAD)" && git -C /tmp/sc/mut checkout -q -- . && git -C /tmp/sc/mut clean -fdq
-git -C /tmp/sc/mut apply "$patch" || { echo "apply failed"; exit 2; }
-sed 's#=> /repo#=> /tmp/sc/mut#' go.mod > /tmp/sc/go.mut.mod; cp go.sum /tmp/sc/go.mut.sum
-export VF_REPO=/tmp/sc/mut VF_MODFILE=/tmp/sc/go.mut.mod VF_OUT=/tmp/sc/out VF_WORK_SUB=mut
-"$VF_GO" build -modfile=/tmp/sc/go.mut.mod -o "$VF_WORK/vf.mut" ./cmd/vf || exit 2
+MUT="${MUT_DIR:-/tmp/sc/mut}"; tag=$(basename "$MUT")
+mkdir -p "$MUT.out"
+[ -d "$MUT" ] || git -C /repo worktree add -q --detach "$MUT" HEAD
+git -C "$MUT" checkout -q --detach "${MUT_BASE:-$(git -C /repo rev-parse HEAD)}" && git -C "$MUT" checkout -q -- . && git -C "$MUT" clean -fdq
+git -C "$MUT" apply "$patch" || { echo "apply failed"; exit 2; }
+sed "s#=> /repo#=> $MUT#" go.mod > "$MUT.go.mod"; cp go.sum "$MUT.go.sum"
+export VF_REPO="$MUT" VF_MODFILE="$MUT.go.mod" VF_OUT="$MUT.out" VF_WORK_SUB="$tag"
+"$VF_GO" build -modfile="$MUT.go.mod" -o "$VF_WORK/vf.$tag" ./cmd/vf || exit 2
 for id in "$@"; do
-  out=$("$VF_WORK/vf.mut" check "$id" --tier "${TIER:-quick}" 2>&1)
+  out=$("$VF_WORK/vf.$tag" check "$id" --tier "${TIER:-quick}" 2>&1)
   code=$?
   echo "$id exit=$code $(echo "$out" | grep -c '^VIOLATION') violation lines; $(echo "$out" | grep "^$id tier" | sed 's/.*failing=/failing=/')"
   echo "$out" | grep -A1 "^VIOLATION" | head -4 | cut -c1-300
 done
-git -C /tmp/sc/mut checkout -q -- .
+git -C "$MUT" checkout -q -- .
